@@ -4,7 +4,7 @@
 use std::sync::Arc;
 
 use ckb_chain_spec::consensus::Consensus;
-use ckb_types::{packed, prelude::*};
+use ckb_types::{core::TransactionView, packed, prelude::*};
 
 use crate::storage::{ScriptStatus, ScriptType, SetScriptsCommand};
 use crate::verif::client::{ClientCfg, Template};
@@ -64,6 +64,9 @@ pub(crate) enum Act {
     Typed(char),
     /// spend the most recent live typed cell of lock X and create a plain cell for script Y
     Untype(char, char),
+    /// include this very transaction (e.g. one that an abandoned branch had committed already);
+    /// its output 0 becomes the most recent live plain cell of script X with that capacity
+    Raw(TransactionView, char, u64),
 }
 
 /// Appends blocks `from+1 ..= to` to `chain`; `acts` lists (block number, activity).
@@ -97,6 +100,10 @@ pub(crate) fn extend_chain(chain: &mut Chain, scripts: &Scripts, to: u64, acts: 
                         live.push((*y, packed::OutPoint::new(tx.hash(), 0), cap - 1000, false));
                         txs.push(tx);
                     }
+                }
+                Act::Raw(tx, x, cap) => {
+                    live.push((*x, packed::OutPoint::new(tx.hash(), 0), *cap, false));
+                    txs.push(tx.clone());
                 }
                 Act::Untype(x, y) => {
                     if let Some(pos) = live.iter().rposition(|(name, _, _, typed)| name == x && *typed) {
